@@ -106,6 +106,10 @@ func (a ArgSpec) src() string {
 		return "dmap"
 	case "time":
 		return "dtime"
+	case "nilptr":
+		return "dnilp"
+	case "nildec":
+		return "dnildec"
 	case "arr":
 		var p []string
 		for _, e := range a.Elems {
@@ -130,6 +134,13 @@ type expect struct {
 
 // convModel: what the parameter of kind must receive for arg; status ok / reject / unspec
 func convModel(arg ArgSpec, kind string) (expect, string) {
+	if arg.K == "nilptr" || arg.K == "nildec" {
+		// a nil pointer in the data is null: an interface parameter gets nil (or the typed nil itself)
+		if kind == "any" {
+			return expect{Kind: "nullish"}, "ok"
+		}
+		return expect{}, "unspec"
+	}
 	if arg.K == "null" {
 		if kind == "any" {
 			return expect{Kind: "nil"}, "ok"
@@ -166,7 +177,7 @@ func convModel(arg ArgSpec, kind string) (expect, string) {
 			return expect{}, "unspec"
 		}
 		lim := map[string]int64{"int": math.MaxInt64, "int8": 127, "int16": 32767, "int32": math.MaxInt32, "int64": math.MaxInt64}[kind]
-		if v > lim || v < -lim-1 || v > 1<<53 || v < -(1<<53) {
+		if v > lim || v < -lim-1 {
 			return expect{}, "unspec"
 		}
 		return expect{Kind: "int", I: v}, "ok"
@@ -239,6 +250,12 @@ func argMatchesAny(a ArgSpec, got interface{}) bool {
 		return got == a.B
 	case "null":
 		return got == nil
+	case "nilptr", "nildec":
+		if got == nil {
+			return true
+		}
+		rv := reflect.ValueOf(got)
+		return rv.Kind() == reflect.Ptr && rv.IsNil()
 	case "time":
 		t, ok := got.(time.Time)
 		return ok && t.Equal(c11Time)
@@ -266,6 +283,12 @@ func (e expect) matches(got interface{}) bool {
 		return true
 	case "nil":
 		return got == nil
+	case "nullish":
+		if got == nil {
+			return true
+		}
+		rv := reflect.ValueOf(got)
+		return rv.Kind() == reflect.Ptr && rv.IsNil()
 	case "any":
 		return argMatchesAny(e.Arg, got)
 	case "int":
@@ -453,6 +476,7 @@ func runBridge(w *core.W, mon string, c *BridgeCase, sc *formula.SourceCode) {
 		"hostfn": buildSig(c.Sig, &log),
 		"dmap":   map[string]interface{}{"a": 1, "b": 2},
 		"dtime":  c11Time,
+		"dnilp":  (*int)(nil), "dnildec": (*decimal.Big)(nil),
 		"t": func(k int64, v interface{}) (interface{}, error) {
 			order = append(order, k)
 			return v, nil
@@ -662,7 +686,9 @@ var argPool = []ArgSpec{
 	{K: "str", S: "s"}, {K: "str", S: ""}, {K: "str", S: "12"}, {K: "bool", B: true}, {K: "bool", B: false}, {K: "null"},
 	{K: "arr", Elems: []ArgSpec{{K: "num", Num: "1"}, {K: "num", Num: "2.5"}}}, {K: "arr", Elems: []ArgSpec{{K: "str", S: "a"}, {K: "str", S: "b"}}}, {K: "arr", Elems: []ArgSpec{}},
 	{K: "arr", Elems: []ArgSpec{{K: "num", Num: "1"}, {K: "str", S: "x"}}}, {K: "arr", Elems: []ArgSpec{{K: "num", Num: "-7.9"}}}, {K: "arr", Elems: []ArgSpec{{K: "null"}}},
-	{K: "map"}, {K: "time"},
+	{K: "map"}, {K: "time"}, {K: "nilptr"}, {K: "nildec"},
+	{K: "num", Num: "1e-20"}, {K: "num", Num: "0.00000000000000000001"}, {K: "num", Num: "-3e-25"}, {K: "num", Num: "7.5e-30"}, {K: "num", Num: "123456789.000000000000000000001"},
+	{K: "arr", Elems: []ArgSpec{{K: "nilptr"}, {K: "num", Num: "1e-20"}}},
 }
 
 // BuiltinCallCase: builtins obey the same bridge (arity and conversion).
@@ -865,7 +891,7 @@ func runC11(w *core.W) {
 // fitting draws an argument that converts to the parameter kind.
 func fitting(r *rand.Rand, kind string) ArgSpec {
 	num := func() ArgSpec {
-		return ArgSpec{K: "num", Num: []string{"3", "2.7", "-2.7", "0", "100", "0.1", "-0.5", "7.999", "-1", "12e1"}[r.Intn(10)]}
+		return ArgSpec{K: "num", Num: []string{"3", "2.7", "-2.7", "0", "100", "0.1", "-0.5", "7.999", "-1", "12e1", "1e-20", "-3e-25", "0.00000000000000000001", "99.99999999999999999999999"}[r.Intn(14)]}
 	}
 	switch kind {
 	case "string":
